@@ -352,3 +352,124 @@ Proof.
 Qed.
 
 End Closed.
+
+(** * The composed statements: C15 + C07 discharge the graph hypothesis [WF], the node-function hypothesis [F_mix] and the
+      closure hypothesis [axis_read_ok] of the C01 / C02 theorems, for every graph accepted by the [well_typed] checker
+      whose definitions the modelled DAG constructor accepts. *)
+From Leaspy Require Import State.StateNow State.StateNowProofs State.RevertProofs Sampler.RevertScript Sampler.RevertScriptProofs.
+
+Section Composed.
+Variable A : Type.
+Variable add : A -> A -> A.
+Variable IX : Type.
+Variable put : option IX -> aval A -> bool -> aval A -> option (aval A).
+Variable G : AxisTypes.graph.
+Variable fs : nat -> nodefun A.
+Variable n : nat.
+Variable r : DagModel.dag.
+Variable v0 : aval A.
+Hypothesis Hb : DagModel.build (dag_of_defs (defs_of_axis A add G fs n)) = DagModel.Ok r.
+
+Notation g := (graph_of_build (defs_of_axis A add G fs n) r v0).
+Notation sm := (axis_sem A IX put).
+
+Lemma axis_built_WF : WF g.
+Proof. exact (built_graph_WF _ _ r v0 Hb). Qed.
+
+Lemma axis_built_F_mix : F_mix g sm.
+Proof. apply F_mix_axis. Qed.
+
+Lemma axis_gn : gn g = length (g_nodes G).
+Proof. rewrite (gn_gS _ _ r v0 Hb). apply defs_of_axis_length. Qed.
+
+(** C01 on these graphs: nothing is assumed but the documented precondition of per-individual reverts *)
+Theorem read_is_scratch_axis :
+  forall ops, MaskDisciplined g sm (init_store g) ops ->
+  forall k i st,
+    nth_error (fst (run_now g sm (init_store g) ops)) k = Some st ->
+    snd (step_now g sm (fst (run_now g sm (init_store g) ops)) (Get k i)) =
+      match scratch g (values st) i with Some v => Ok v | None => Err InputError end.
+Proof. intros ops. exact (read_after_history_now _ _ _ g sm axis_built_WF ops axis_built_F_mix). Qed.
+
+Theorem never_stale_axis :
+  forall ops, MaskDisciplined g sm (init_store g) ops ->
+  forall k i st v,
+    nth_error (fst (run_now g sm (init_store g) ops)) k = Some st ->
+    snd (step_now g sm (fst (run_now g sm (init_store g) ops)) (Get k i)) = Ok v ->
+    scratch g (values st) i = Some v.
+Proof. intros ops. exact (never_stale_now _ _ _ g sm axis_built_WF ops axis_built_F_mix). Qed.
+
+(** C02, every later history *)
+Theorem later_history_axis (fx chk : bool) : fx = true \/ chk = true ->
+  forall (ops : list (op (aval A) (list bool) IX)) (s1 s2 : store (aval A)), sim_store g s1 s2 ->
+    Disciplined g sm fx chk s1 ops -> Disciplined g sm fx chk s2 ops ->
+    sim_store g (fst (run g sm fx s1 ops)) (fst (run g sm fx s2 ops)) /\
+    outs_agree g ops (snd (run g sm fx s1 ops)) (snd (run g sm fx s2 ops)).
+Proof. intros Hf ops. exact (sim_run _ _ _ g sm fx chk axis_built_WF Hf ops axis_built_F_mix). Qed.
+
+Hypothesis W : well_typed G = true.
+
+Lemma reads_ok i reads : i < gn g -> ind_axis g i = true ->
+  (forall q, In q reads -> q < gn g /\ ind_axis g q = true) ->
+  forall q, In q reads -> axis_read_ok g i q.
+Proof.
+  intros Hi Ai Hr q Hq. destruct (Hr q Hq) as [Hqn Aq]. rewrite axis_gn in *.
+  exact (well_typed_axis_closed A add G fs n r v0 W Hb i q Hi Hqn Ai Aq).
+Qed.
+
+(** C02, per-individual rejection: the contract on the reads is now literally the documented one —
+    "only variables carrying the individual axis". *)
+Theorem partial_revert_axis (fx chk : bool) : fx = true \/ chk = true ->
+  forall (st : state (aval A)) (i : nat) (o : option (aval A)) (reads : list nat) (m : list bool),
+    Good g st -> mode st <> None -> i < gn g -> settable g i = true -> ind_axis g i = true ->
+    (forall q, In q reads -> q < gn g /\ ind_axis g q = true) ->
+    let st1 := fst (set_state g fx st i o) in
+    let st2 := gets g st1 reads in
+    shapes_ok g sm m i (values st) (values st2) ->
+    let st3 := fst (revert_mask_state sm st2 m) in
+    snd (revert_mask_state sm st2 m) = Done /\
+    (forall j, In j (i :: desc g i) ->
+       values st3 j = match values st j, values st2 j with Some old, Some cur => mix sm m old cur | _, _ => None end) /\
+    (forall j, ~ In j (i :: desc g i) -> values st3 j = values st2 j) /\
+    (forall j w, ~ In j (i :: desc g i) -> values st j = Some w -> values st3 j = Some w) /\
+    (forall j, In j (desc g i) -> ind_axis g j = false -> values st3 j = None) /\
+    Good g st3 /\ fork st3 = None /\ mode st3 = mode st.
+Proof.
+  intros Hf st i o reads m HG Hm Hi Hs Ai Hr.
+  exact (partial_revert _ _ _ g sm fx chk axis_built_WF Hf st i o reads m axis_built_F_mix HG Hm Hi Hs Ai
+           (reads_ok i reads Hi Ai Hr)).
+Qed.
+
+Theorem partial_revert_as_if_axis (fx chk : bool) : fx = true \/ chk = true ->
+  forall (st : state (aval A)) (i : nat) (o : option (aval A)) (reads : list nat) (m : list bool),
+    Good g st -> mode st <> None -> i < gn g -> settable g i = true -> ind_axis g i = true ->
+    (forall q, In q reads -> q < gn g /\ ind_axis g q = true) ->
+    let st2 := gets g (fst (set_state g fx st i o)) reads in
+    shapes_ok g sm m i (values st) (values st2) ->
+    let st3 := fst (revert_mask_state sm st2 m) in
+    sim g st3 (forget_fork (fst (set_state g fx st i (values st3 i)))).
+Proof.
+  intros Hf st i o reads m HG Hm Hi Hs Ai Hr.
+  exact (partial_revert_sim _ _ _ g sm fx chk axis_built_WF Hf st i o reads m axis_built_F_mix HG Hm Hi Hs Ai
+           (reads_ok i reads Hi Ai Hr)).
+Qed.
+
+(** C02, the individual sampler step *)
+Theorem ind_step_axis (fx chk : bool) : fx = true \/ chk = true ->
+  forall decide x reads (st st' : state (aval A)) d (m : list bool),
+    Good g st -> mode st <> None -> x < gn g -> ind_axis g x = true ->
+    (forall q, In q reads -> q < gn g /\ ind_axis g q = true) ->
+    ind_step g sm fx decide x reads st d = (st', Some m) ->
+    exists old new,
+      snd (get g (values st) x) = Ok old /\ put_val sm None d true old = Some new /\
+      values st' x = mix sm m old new /\
+      (forall j, In j (desc g x) -> ind_axis g j = false -> values st' j = None) /\
+      (forall j w, ~ In j (x :: desc g x) -> values st j = Some w -> values st' j = Some w) /\
+      Good g st' /\ fork st' = None /\ mode st' = mode st /\
+      sim g st' (forget_fork (fst (set_state g fx st x (values st' x)))).
+Proof.
+  intros Hf decide x reads st st' d m HG Hm Hx Ax Hr.
+  exact (ind_step_spec _ _ _ g sm fx chk axis_built_WF Hf decide x reads st st' d m axis_built_F_mix HG Hm Ax
+           (reads_ok x reads Hx Ax Hr)).
+Qed.
+End Composed.
